@@ -76,6 +76,13 @@ class Mon:
             self.fail(monitor, f"{what}: observed {observed!r}, expected {expected!r}",
                       observed=observed, expected=expected, **detail)
 
+    def run(self, fn, *args):
+        """Run an API-history workload; the first failing monitor ends it quietly."""
+        try:
+            fn(*args)
+        except Stop:
+            pass
+
     def result(self, **extra):
         r = {"violations": self.violations, "counters": dict(self.counters),
              "bins": {k: sorted(v) for k, v in self.bins.items()}}
